@@ -22,6 +22,7 @@ TIE = {'core.get_n_best / Plurality and every evaluator ending in it; HighestAve
        'Copeland / Schulze / MinimaxCondorcet / RankedPairs / KemenyYoung; ScoreVoting / MajorityJudgment / STAR; ProportionalApproval / SequentialProportionalApproval; PreferenceAddition':
            'models shared with C05 / C12 / C17 (correspondence there); shape theorems here (Proofs/Shape2_proofs.v), and their outputs are judged by the extracted checker as well',
        'sequential.Baldwin (+ Baldwin._compute_negative_scores = the negated RankedToPositionalVotes.convert)': 'Model/Elimination.v, wire units 111 / 112: correspondence stream baldwin (extracted model vs the implementation: result lists in order, score dictionaries in order and value; candidates with equal scores compared as a set where a shared rank makes the order a frozenset iteration order); shape theorems C08_shape_baldwin / C08_shape_positional',
+       'convert.ApprovalToSimpleVotes in front of plurality': 'Model/ApprovalSimple.v, wire unit 113: correspondence stream approval-simple (dictionaries as sets of items, exact values); theorem C08_shape_approval',
        'sequential.Benham / TidemanAlternative; threshold selectors, bracketers, open lists, QuotaSelector; CondorcetWinner / SmithSet / SchwartzSet': 'models shared with C05 / C16 (correspondence there); shape theorems here (Proofs/Shape3_proofs.v, ShapeElim_proofs.v, TidemanIndex_proofs.v)',
        'every other evaluator of harness/evalreg.py': 'outputs judged by the extracted verified checker sel_shape_ok (selections) / declarative clauses (distributions)'}
 RULE = ('sweep: for each of the 65 evaluator configurations (63 of harness/evalreg.py + AllocatedScoreDistributor hare / droop; simple / approval / ranked incl. shared ranks / score / pairwise votes) random profiles '
@@ -34,8 +35,8 @@ RULE = ('sweep: for each of the 65 evaluator configurations (63 of harness/evalr
         'once for r >= 2 seats with more than r members: allocated score; fewer than n distinct plain candidates: Bucklin / Oklahoma / STAR); an '
         'exception other than VotingSystemError / NotImplementedError is a violation for the families the property names (plurality, highest '
         'averages, largest remainder, transferable vote, Schulze, Copeland, minimax, positional, approval, score). model-shape: the checker on the '
-        'extracted get_n_best model (sanity of the wire encoding). baldwin: differential of the extracted Model/Elimination.v against sequential.Baldwin (six rank scorers; 1..6 candidates, bullet / truncated ballots, shared ranks, zero weights and weights up to 10^20, symmetrised profiles, tied losers ranked together at the bottom, one all-inclusive shared rank, an empty shared rank (ValueError on both sides), n in {0, 1, k-1, k, k+1, random}; 12 % of the cases compare the negative-score dictionary itself) with the declarative clause of C08_shape_baldwin evaluated on the implementation answer (well-formed profile, 1 <= n <= candidates: exactly n entries in shape, never an exception). sweeps: an exception other than VotingSystemError / NotImplementedError is also a violation for Baldwin, for Benham (one seat) and TidemanAlternative on a profile with two candidates (theorems C08_shape_baldwin / benham / tideman_outcomes), except the TypeError of TidemanAlternative for n >= 2 (known finding C08-tideman-multiseat). non-trivial = result contains a tie or a refusal; distinct by case hash')
-PARTIAL = ['no shape theorem (decided per explored case by the verified checker): approval converters in front of plurality, the first-preference composite, '
+        'extracted get_n_best model (sanity of the wire encoding). baldwin: differential of the extracted Model/Elimination.v against sequential.Baldwin (six rank scorers; 1..6 candidates, bullet / truncated ballots, shared ranks, zero weights and weights up to 10^20, symmetrised profiles, tied losers ranked together at the bottom, one all-inclusive shared rank, an empty shared rank (ValueError on both sides), n in {0, 1, k-1, k, k+1, random}; 12 % of the cases compare the negative-score dictionary itself) with the declarative clause of C08_shape_baldwin evaluated on the implementation answer (well-formed profile, 1 <= n <= candidates: exactly n entries in shape, never an exception). sweeps: an exception other than VotingSystemError / NotImplementedError is also a violation for Baldwin, for Benham (one seat) and TidemanAlternative on a profile with two candidates (theorems C08_shape_baldwin / benham / tideman_outcomes), except the TypeError of TidemanAlternative for n >= 2 (known finding C08-tideman-multiseat). approval-simple: the extracted Model/ApprovalSimple.v against ApprovalToSimpleVotes(split).convert on random / symmetrised approval profiles with blank ballots and zero weights. non-trivial = result contains a tie or a refusal; distinct by case hash')
+PARTIAL = ['no shape theorem (decided per explored case by the verified checker): the first-preference composite, '
            'allocated score (shape clause refuted: C08_shape_allocated_score_refuted); Benham / Tideman / Baldwin / positional theorems are over well-formed profiles '
            '(no candidate twice on a ballot, no negative weight resp. no empty shared rank) with a pairwise contest; TidemanAlternative fills one seat only '
            '(C08_shape_tideman_multiseat_refuted); the library has no Coombs class',
@@ -488,6 +489,55 @@ def gen_baldwin(rng, count):
 BALD_KW = dict(canon=bald_canon, nontrivial=bald_nontrivial, spec=bald_spec, known_class=None, limit=20)
 
 
+# ------------------------------------------------------------------ ApprovalToSimpleVotes against Model/ApprovalSimple.v (unit 113)
+def appr_line(c):
+    return '%d (%d %s)' % (BLOCK['C08'] + 3, 1 if c['split'] else 0, sx(c['profile']))
+
+
+def appr_impl(c):
+    import votelib.convert as conv
+    r = conv.ApprovalToSimpleVotes(split=c['split']).convert(evalreg.to_python('approval', c['profile']))
+    return common.ok([[cnum(k), common.q(v)] for k, v in r.items()])
+
+
+def appr_canon(c, wire):
+    v = common.parse_sx(wire)
+    if v[0] != 0:
+        return ('err', v[1])
+    # the candidates of one ballot enter the dictionary in the iteration order of a frozenset: compared as a set of items
+    return ('ok', tuple(sorted((k, common.unq(x)) for k, x in v[1])))
+
+
+def appr_spec(c, io, mo):
+    """C08_shape_approval needs: one key per approved candidate (so that n <= candidates can be filled)"""
+    r = appr_canon(c, io)
+    if r[0] != 'ok':
+        return 'ApprovalToSimpleVotes raises %s' % common.E_NAME.get(r[1], str(r[1]))
+    keys = [k for k, _ in r[1]]
+    cands = evalreg.candidates_of('approval', c['profile'])
+    if sorted(keys) != sorted(cands):
+        return 'converted dictionary has keys %s, the ballots approve %s' % (keys, cands)
+    return None
+
+
+def gen_approval(rng, count):
+    for _ in range(count):
+        prof = evalreg.gen_profile(rng, 'approval')
+        tag = 'random'
+        if rng.random() < 0.4:
+            prof = symmetrise(rng, 'approval', prof)
+            tag = 'sym'
+        if rng.random() < 0.1:
+            prof = prof + [[[], rng.randint(1, 3)]]      # a blank ballot (split: skipped, not divided by zero)
+            tag = 'blank'
+        if rng.random() < 0.1:
+            prof = [[b, 0] for b, _w in prof[:1]] + prof[1:]
+        yield dict(kind='approval-simple', split=rng.random() < 0.5, profile=prof, _style=tag)
+
+
+APPR_KW = dict(canon=appr_canon, nontrivial=lambda c: c['split'], spec=appr_spec, known_class=None, limit=10)
+
+
 def coverage(ctx):
     """which public evaluator classes of votelib.evaluate.* are exercised by this sweep"""
     import votelib.evaluate.core as core, votelib.evaluate.sequential as seq, votelib.evaluate.proportional as prop
@@ -552,11 +602,15 @@ def explore(ctx, widen=1):
     ctx.differential('baldwin', cases, bald_line, bald_impl, **BALD_KW)
     for k, v in _BALD_DIST.items():
         ctx.dist[k] += v
+    ctx.differential('approval-simple', list(gen_approval(rng, ctx.n(1500, 20000) * widen)), appr_line, appr_impl, **APPR_KW)
     coverage(ctx)
 
 
 def replay(ctx, case, stream=None):
     if case.get('kind') == 'baldwin':
         ctx.differential('replay', [case], bald_line, bald_impl, **BALD_KW)
+        return
+    if case.get('kind') == 'approval-simple':
+        ctx.differential('replay', [case], appr_line, appr_impl, **APPR_KW)
         return
     replay_case(ctx, case, 'replay')
